@@ -699,6 +699,9 @@ func (t *T) call(n *ast.CallExpr, e *env) ([]string, []string) {
 		if cs.Emit != "" && !t.allowEmit {
 			t.stopf(n, "call %q has an effect (emit): it may only be a statement or a whole right-hand side", key)
 		}
+		if len(cs.Sets) > 0 && !t.allowSets {
+			t.stopf(n, "call %q assigns state places (sets): it may only be a whole right-hand side or the operand of return", key)
+		}
 		t.checkAtomLocals(n.Fun, append([]string{cs.Term}, cs.Terms...)...)
 		arg := func(i int) string { return t.argTerm(n, i, e) }
 		if len(cs.Terms) > 0 {
